@@ -264,7 +264,7 @@ def search(rep, tier, seed, prop, only=None, n=None, shrink_ok=True):
             rep.violation(stream + "-build", "witness search %s: %s" % (stream, err), False)
             continue
         big = False
-        hopts = dict(drop=dom.get("drop", ()), asc_widen=dom.get("asc_widen", False))
+        hopts = dict(drop=dom.get("drop", ()), asc_widen=dom.get("asc_widen", False), rel=dom["rel"])
         lines = X.histories(seed + 1000 + (zlib_id(prop)), prop, n, big=big, **hopts)
         if tier != "quick" and not dom["rel"]:
             lines += X.histories(seed + 2000, prop, n // 4, big=True, **hopts)      # non-relational: arbitrary-precision bounds
